@@ -1,11 +1,45 @@
 package main
 
 import (
+	"fmt"
 	"go/token"
 
 	"golang.org/x/tools/go/ssa"
 )
 
 func (v *FnVC) checkFieldGuards(l *Loc, val Term, p token.Pos)          {}
-func (v *FnVC) checkMapGuards(i *ssa.MapUpdate, m, k Term)              {}
+// checkMapGuards: assert-update clauses of the function under contract, at every map update whose map operand was
+// loaded from a struct field of the given name.
+func (v *FnVC) checkMapGuards(i *ssa.MapUpdate, m, k Term) {
+	if v.C == nil || len(v.C.UpdateAsserts) == 0 {
+		return
+	}
+	field := ""
+	if ld, ok := i.Map.(*ssa.UnOp); ok {
+		if fa, ok := ld.X.(*ssa.FieldAddr); ok {
+			if st, ok := structOf(deref(fa.X.Type())); ok {
+				field = st.Field(fa.Field).Name()
+			}
+		}
+	}
+	if f, ok := i.Map.(*ssa.Field); ok {
+		if st, ok := structOf(f.X.Type()); ok {
+			field = st.Field(f.Field).Name()
+		}
+	}
+	for _, ua := range v.C.UpdateAsserts {
+		if ua.Callee != field {
+			continue
+		}
+		env := v.baseEnv()
+		env.cur = true
+		blk, st := v.curBlock, v.cur
+		env.lookup = func(n string) (Term, bool) { return v.localByNameAt(n, blk, i, st) }
+		env.vars["$map"] = m
+		env.vars["$key"] = k
+		env.vars["$value"] = v.val(i.Value)
+		f := v.evalBool(ua.C.E, env)
+		v.oblige("assert-update:"+field, f, fmt.Sprintf("at every update of a map stored in .%s: %s", field, ua.C.Text), i.Pos())
+	}
+}
 
